@@ -28,6 +28,9 @@ type NUint16 uint16
 type NUint32 uint32
 type NUint64 uint64
 type NFloat64 float64
+
+// NDec: a named type over decimal.Decimal (the model sees the decimal it holds; the exact canonical form of an unconverted one is nd:)
+type NDec decimal.Decimal
 type NString string
 type NBool bool
 
@@ -220,6 +223,9 @@ func build(t *TV) (reflect.Value, bool) {
 		if err != nil {
 			panic("bad dec " + t.C + "e" + t.E)
 		}
+		if t.N == 1 {
+			return reflect.ValueOf(NDec(d)), true
+		}
 		return reflect.ValueOf(d), true
 	case "ptr":
 		inner := t.V.(*TV)
@@ -408,7 +414,7 @@ func (t *TV) MarshalJSON() ([]byte, error) {
 	case "int":
 		m["n"], m["v"], m["k"] = t.N, t.V, t.K
 	case "dec":
-		m["c"], m["e"] = t.C, t.E
+		m["c"], m["e"], m["n"] = t.C, t.E, t.N
 	case "ptr":
 		m["nil"], m["v"] = t.Nil, t.V
 	case "slice":
@@ -457,7 +463,7 @@ func decodeTV(raw json.RawMessage) *TV {
 	case "int":
 		t.N, t.V, t.K = num("n"), str("v"), str("k")
 	case "dec":
-		t.C, t.E = str("c"), str("e")
+		t.C, t.E, t.N = str("c"), str("e"), num("n")
 	case "ptr":
 		t.Nil = num("nil")
 		t.V = decodeTV(m["v"])
@@ -538,7 +544,11 @@ func fcanon(f float64) string {
 }
 
 // canonV: the exact canonical form (dynamic Go types visible) compared with the Lean model's output.
-func canonV(v reflect.Value) string {
+func canonV(v reflect.Value) string { return canonVd(v, true) }
+
+// canonVd: top = the value is the result itself, not something inside a returned container (a number inside a container that is
+// handed back whole keeps its Go type: the model shows the decimal a named decimal holds)
+func canonVd(v reflect.Value, top bool) string {
 	if !v.IsValid() {
 		return "nil"
 	}
@@ -546,11 +556,18 @@ func canonV(v reflect.Value) string {
 		if v.IsNil() {
 			return "nil"
 		}
-		return canonV(v.Elem())
+		return canonVd(v.Elem(), top)
 	}
 	if v.CanInterface() {
 		if d, ok := v.Interface().(decimal.Decimal); ok {
 			return fmt.Sprintf("d:%se%d", d.Coefficient().String(), d.Exponent())
+		}
+		if nd, ok := v.Interface().(NDec); ok {
+			d := decimal.Decimal(nd)
+			if !top {
+				return fmt.Sprintf("d:%se%d", d.Coefficient().String(), d.Exponent())
+			}
+			return fmt.Sprintf("nd:%se%d", d.Coefficient().String(), d.Exponent())
 		}
 	}
 	named := ""
@@ -579,11 +596,11 @@ func canonV(v reflect.Value) string {
 		if v.IsNil() {
 			return "p(nil)"
 		}
-		return "p(" + canonV(v.Elem()) + ")"
+		return "p(" + canonVd(v.Elem(), false) + ")"
 	case reflect.Slice, reflect.Array:
 		var parts []string
 		for i := 0; i < v.Len(); i++ {
-			parts = append(parts, canonV(v.Index(i)))
+			parts = append(parts, canonVd(v.Index(i), false))
 		}
 		ei := b2s(v.Type().Elem().Kind() == reflect.Interface)
 		if v.Kind() == reflect.Slice {
@@ -608,7 +625,7 @@ func canonV(v reflect.Value) string {
 			} else {
 				ks = k.String()
 			}
-			kvs = append(kvs, kv{ks, canonV(v.MapIndex(k))})
+			kvs = append(kvs, kv{ks, canonVd(v.MapIndex(k), false)})
 		}
 		sort.Slice(kvs, func(i, j int) bool { return kvs[i].k < kvs[j].k })
 		var parts []string
@@ -620,7 +637,7 @@ func canonV(v reflect.Value) string {
 		var parts []string
 		for i := 0; i < v.NumField(); i++ {
 			f := v.Type().Field(i)
-			parts = append(parts, f.Name+b2s(f.IsExported())+"="+canonV(v.Field(i)))
+			parts = append(parts, f.Name+b2s(f.IsExported())+"="+canonVd(v.Field(i), false))
 		}
 		return "st{" + strings.Join(parts, ",") + "}"
 	case reflect.Func:
